@@ -2,6 +2,7 @@ package main
 
 import (
 	"fmt"
+	"go/constant"
 	"go/token"
 	"go/types"
 	"sort"
@@ -647,6 +648,37 @@ func ruleDefinedSymbolKind(c *Ctx, rule string) {
 	if !c.Anchor(rule, "SymbolTable.DefineLocal / Compiler.emit / Symbol.Index, Constant, Scope", def != nil && emit != nil && fIdx >= 0 && fConst >= 0 && fScope >= 0) {
 		return
 	}
+	opDefine, okDef := constOf(l, modPath, "OpDefineLocal")
+	// DefineLocal itself: "already exists" is reported only after a test of the
+	// found symbol's Scope (a builtin cached by Resolve is not a definition)
+	{
+		okAll, nret := true, 0
+		for _, b := range def.Blocks {
+			ret, ok := b.Instrs[len(b.Instrs)-1].(*ssa.Return)
+			if !ok || len(ret.Results) != 2 {
+				continue
+			}
+			k, ok := ret.Results[1].(*ssa.Const)
+			if !ok || k.Value == nil || !constant.BoolVal(k.Value) {
+				continue
+			}
+			nret++
+			tested := false
+			for _, g := range guardEdges(b) {
+				if derivesFrom(g.If.Cond, func(v ssa.Value) bool {
+					fa, ok := v.(*ssa.FieldAddr)
+					return ok && fa.Field == fScope && isNamed(fa.X.Type(), modPath, "Symbol")
+				}, 5) {
+					tested = true
+				}
+			}
+			if !tested {
+				okAll = false
+			}
+		}
+		c.Check(rule, "SymbolTable.DefineLocal | reports an existing symbol", l.Pos(def.Pos()), okAll && nret > 0, "only after a test of its Scope",
+			"DefineLocal returns whatever the table holds under the name as 'already defined', including a builtin that Resolve cached at file scope: `x := append([], 1); append, y := [7, 2]` then defines `append` in the slot numbered like the builtin (the value of x is overwritten; an index beyond NumLocals is emitted)")
+	}
 	n := 0
 	for _, dc := range l.StaticCallers(def) {
 		call, ok := dc.(*ssa.Call)
@@ -700,20 +732,53 @@ func ruleDefinedSymbolKind(c *Ctx, rule string) {
 			}
 			n++
 			good := false
-			for _, g := range guardEdges(ec.Block()) {
+			// a DEFINITION (OpDefineLocal) with a symbol that may already exist can
+			// run at file scope, where the table also holds globals: it needs a
+			// test of the symbol's Scope; for other opcodes a test of Constant
+			// (literal constants are the only index-less symbols a block holds)
+			// is enough
+			isDefine := false
+			if len(ec.Call.Args) > 2 {
+				if k, ok := constInt64(ec.Call.Args[2]); ok && okDef && k == opDefine {
+					isDefine = true
+				}
+			}
+			qualifies := func(g guardEdge) bool {
 				// exists == false
 				if exists != nil && g.If.Cond == exists && !g.Truth {
-					good = true
+					return true
 				}
-				// a test that involves the symbol's Constant or Scope field
-				if derivesFrom(g.If.Cond, func(v ssa.Value) bool {
+				// a test that involves the symbol's Scope (or Constant) field
+				return derivesFrom(g.If.Cond, func(v ssa.Value) bool {
 					fa, ok := v.(*ssa.FieldAddr)
 					if !ok || fa.X != sym {
 						return false
 					}
-					return fa.Field == fConst || fa.Field == fScope
-				}, 5) {
+					return fa.Field == fScope || (fa.Field == fConst && !isDefine)
+				}, 5)
+			}
+			for _, g := range guardEdges(ec.Block()) {
+				if qualifies(g) {
 					good = true
+				}
+			}
+			if !good {
+				// a disjunction (`exists && scope != local` -> error): every feasible
+				// path to the emit has taken one qualifying branch
+				if paths, ok := pathGuardSets(ec.Block()); ok && len(paths) > 0 {
+					all := true
+					for _, p := range paths {
+						one := false
+						for _, g := range p {
+							if qualifies(g) {
+								one = true
+							}
+						}
+						if !one {
+							all = false
+						}
+					}
+					good = all
 				}
 			}
 			key := fmt.Sprintf("%s | emit(..., DefineLocal(%s).Index)", fnName(fn), describe(call.Call.Args[1]))
